@@ -77,6 +77,7 @@ Record prims := mkPrims {
   addr_of_pub : bytes -> bytes;               (* from_extended_key_string(ledger, xpub).address *)
   seed_ok : bytes -> bool;                    (* Mnemonic().mnemonic_decode does not raise: only the OLD seed check *)
   xparse : bytes -> xres;
+  chan_key : bytes -> N -> bytes;             (* from_extended_key_string(x).child(KeyPath.CHANNEL).child(k).extended_key_string() *)
   jstr : bytes -> bytes;                      (* json.dumps of one str (ensure_ascii) *)
   scrypt : bytes -> bytes -> N -> N -> N -> bytes;   (* passphrase salt n r p *)
   zc : bytes -> bytes;
@@ -344,6 +345,12 @@ Definition account_decrypt (pw : bytes) (a : account) : dout * account :=
       | Ok pk => (DTrue, set_secrets a2 sd [] pk false ivs ivp)
       end
   end.
+
+(* DeterministicChannelKeyManager: the k-th deterministic channel key an account offers (private_key.child(k) of the
+   manager).  A function of the account's current private key only: nothing the manager did or saw while the account
+   was locked may survive into the unlocked state. *)
+Definition channel_view (a : account) (k : N) : option bytes :=
+  if a_encrypted a then None else match a_priv a with Some x => Some (chan_key P x k) | None => None end.
 
 (* Account.to_dict(encrypt_password) *)
 Definition account_to_dict (pwd : option bytes) (rnd : list bytes) (a : account) : jv * account * list bytes :=
@@ -638,7 +645,8 @@ Inductive mop :=
 | MSetPref (k : bytes) (v : jv) (ts : Z)
 | MAccEncrypt (i : nat) (pw : bytes) (rnd : list bytes)            (* accounts[i].encrypt(pw) *)
 | MAccDecrypt (i : nat) (pw : bytes)                               (* accounts[i].decrypt(pw) *)
-| MSetCipher (i : nat) (seed pks : bytes).                         (* overwrite the stored ciphertexts *)
+| MSetCipher (i : nat) (seed pks : bytes)                          (* overwrite the stored ciphertexts *)
+| MTouchChannel (i : nat).   (* accounts[i].deterministic_channel_keys: private_key, ensure_cache_primed(), lookup *)
 
 Inductive mout := OTrue | OFalse | OExc (e : exc) | OBadShape.
 
@@ -722,6 +730,8 @@ Definition step (op : mop) (st : mstate) : mout * mstate :=
                   else (OExc EAssertion, st)
       | None => (OBadShape, st)
       end
+  | MTouchChannel i =>                      (* reading the channel key manager changes nothing observable *)
+      match nth_error (w_accounts w) i with Some _ => (OTrue, st) | None => (OBadShape, st) end
   | MSetCipher i seed pks =>
       (OTrue, mkState (with_accounts w (upd_nth i (fun a => set_secrets a seed pks (a_priv a) (a_encrypted a)
                                                               (a_iv_seed a) (a_iv_priv a)) (w_accounts w)))
